@@ -33,9 +33,9 @@ var c03reviewedK1 = map[string]c03argued{
 	c03edi + ".segDone: panic when p0.target != nil <- " + c03edi + ".segNext":                                                                        {1, c03argTarget},
 	c03edi + ".segDone: panic when (*edi.ediReader).stackTop(p0,nil).segNode == nil <- " + c03edi + ".Read":                                           {1, c03argNode},
 	c03edi + ".segDone: panic when (*edi.ediReader).stackTop(p0,nil).segNode == nil <- " + c03edi + ".segNext":                                        {1, c03argNode},
-	c03edi + ".stackTop: panic when !edi.inRange(_,0,len(p0.stack)-1) <- " + c03edi + ".Read":                                                         {2, c03argStackTop0 + "; " + c03argStackTop1 + " (here: guarded by `len(r.stack) > 1`)"},
-	c03edi + ".stackTop: panic when !edi.inRange(_,0,len(p0.stack)-1) <- " + c03edi + ".segDone":                                                      {1, c03argStackTop0},
-	c03edi + ".stackTop: panic when !edi.inRange(_,0,len(p0.stack)-1) <- " + c03edi + ".segNext":                                                      {1, c03argStackTop0},
+	c03edi + ".stackTop: panic when _ < 0 || _ >= len(p0.stack) <- " + c03edi + ".Read":                                                               {2, c03argStackTop0 + "; " + c03argStackTop1 + " (here: guarded by `len(r.stack) > 1`)"},
+	c03edi + ".stackTop: panic when _ < 0 || _ >= len(p0.stack) <- " + c03edi + ".segDone":                                                            {1, c03argStackTop0},
+	c03edi + ".stackTop: panic when _ < 0 || _ >= len(p0.stack) <- " + c03edi + ".segNext":                                                            {1, c03argStackTop0},
 	"(*" + c03fl + ".EnvelopeDecl).byRows: panic when p0.ByHeaderFooter != nil <- (*" + c03fl + ".reader).readByRowsEnvelope":                         {2, "readByRowsEnvelope runs only when envelopeType() saw Envelopes[0].ByHeaderFooter == nil; the JSON schema (oneOf on the envelopes array, maxItems 1 for by_rows) forbids mixing, so Envelopes[envelopeIndex] is that same by_rows envelope"},
 	c03hr + ".recDone: panic when p0.target != nil <- " + c03hr + ".recNext":                                                                          {1, c03argTarget},
 	c03hr + ".recDone: panic when (*flatfile.HierarchyReader).stackTop(p0,nil).recNode == nil <- " + c03hr + ".Read":                                  {1, c03argNode},
